@@ -141,6 +141,42 @@ def run(rep, tier, seed, replay=None):
                 out.append(("toggle-response:valve", f"toggles {tp}{tr} outcomes {op}/{orr} check {check} rel {rel}: expected {exp[:200]} got {got[:200]}"))
         return out
 
+    # ---- the app id is the one of the 64-bit game id when the reply carries it (its low 24 bits; the 16-bit field may have
+    # been truncated or left at a placeholder): replies whose short field says something else must be judged by the game id
+    def with_short_id(c, new_short):
+        ds = c.script[0]
+        for i, d in enumerate(ds):
+            if d is not None and d[:5] == b"\xff\xff\xff\xffI":
+                pos = 6
+                for _ in range(4):
+                    pos = d.index(b"\0", pos) + 1
+                edf_gameid = False
+                try:
+                    # the extra-data flag byte is the last fixed field; only replies with a game id qualify
+                    tail = d[pos + 2 + 7:]
+                    ver_end = tail.index(b"\0")
+                    edf_gameid = bool(tail[ver_end + 1] & 0x01)
+                except (ValueError, IndexError):
+                    return None
+                if not edf_gameid or d[pos:pos + 2] == new_short:
+                    return None
+                ds[i] = d[:pos] + new_short + d[pos + 2:]
+                return c
+        return None
+
+    short_meta = {}
+    for rel, b in chosen:
+        for k, new_short in enumerate((b"\x00\x00", b"\xff\xff", b"\xda\x02")):
+            for check in (True, False):
+                line = build(b, "t", "t", "valid", "valid", check, f"{b.id}sid{k}{'T' if check else 'F'}")
+                c = netcases.Case(line, netprops.FAMILIES["valve"]["nargs"])
+                c2 = with_short_id(c, new_short)
+                if c2 is None:
+                    continue
+                cases.append(c2.line())
+                cases.append(line.replace(f"{b.id}sid{k}", f"{b.id}sidref{k}", 1))
+                short_meta[c2.id] = c2.id.replace("sid", "sidref", 1)
+
     # ---- Unreal 2: the same matrix on its two optional sections, including answers that go wrong only AFTER a well-formed
     # prefix (the last record cut short): a section that fails is absent as a whole
     u2 = [v for v in netprops.valid_cases("unreal2", seed + 11, 400 if tier == "quick" else 4000)
@@ -236,4 +272,10 @@ def run(rep, tier, seed, replay=None):
             return [] if impl == gexp[cid] else [("maybe-gather:" + cid, f"maybe_gather!({cid[3]}, {cid[5:]}) gave {impl}, documented: {gexp[cid]}")]
         return inner(case, impl, model, panic)
 
-    vlib.correspond(rep, netprops.corpus("C11") + cases, oracle=oracle2, trivial=netprops.trivial, tag="c11")
+    model, impl, panics = vlib.correspond(rep, netprops.corpus("C11") + cases, oracle=oracle2, trivial=netprops.trivial, tag="c11")
+    for cid, ref in short_meta.items():
+        got, want = vlib.result_of(impl.get(cid, "")), vlib.result_of(impl.get(ref, ""))
+        rep.count("short-id-differs-from-game-id")
+        if got != want:
+            rep.oracle_failures.append(("appid-source:valve", f"the 16-bit id field was changed, the game id was not: result {got[:120]} instead of {want[:120]}",
+                                        next(c for c in cases if c.startswith(cid + " ")), got[:300]))
